@@ -1,4 +1,7 @@
 import SpoxModel.Lemmas.Opset
+import SpoxModel.Lemmas.OpsetRename
+import SpoxModel.Lemmas.OpsetFuncs
+import SpoxModel.Lemmas.OpsetNames
 /-!
 # C09 — one opset per domain; mixed-version programs build and keep their meaning
 
@@ -158,6 +161,41 @@ theorem function_opsets_agree (g : PGraph) :
   obtain ⟨fg, _, rfl⟩ := hf
   exact (adaptGraph_ok genFacts _ fg e he).2.2 d
 
+/-- One version per domain across the model AND its functions: the imports of every emitted function — the
+    functions of bodies and of other functions' graphs included — answer every lookup exactly like the
+    model's imports (every requirement of a function graph is a requirement of the graph using it). -/
+theorem function_imports_agree (g : PGraph) :
+    ∀ f ∈ (buildModel genFacts g).funcs, ∀ d, lookup d f.1 = lookup d (buildModel genFacts g).imports := by
+  intro f hf d
+  simp only [buildModel, List.mem_map] at hf
+  obtain ⟨fg, hfg, rfl⟩ := hf
+  show lookup d (policy (reqGraph genFacts fg ++ policy (reqGraph genFacts g ++ []))) =
+    lookup d (policy (reqGraph genFacts g ++ []))
+  apply lookup_policy_absorb_policy
+  intro r hr
+  exact List.mem_append.mpr (Or.inl (funcs_req_G genFacts fg g hfg r hr))
+
+/-- The same when the graph carries extra requirements (`Graph.with_opset`). -/
+theorem function_imports_agree_with (extra : List Req) (g : PGraph) :
+    ∀ f ∈ (buildModelWith genFacts extra g).funcs, ∀ d,
+      lookup d f.1 = lookup d (buildModelWith genFacts extra g).imports := by
+  intro f hf d
+  simp only [buildModelWith, List.mem_map] at hf
+  obtain ⟨fg, hfg, rfl⟩ := hf
+  show lookup d (policy (reqGraph genFacts fg ++ policy (reqGraph genFacts g ++ extra))) =
+    lookup d (policy (reqGraph genFacts g ++ extra))
+  apply lookup_policy_absorb_policy
+  intro r hr
+  exact List.mem_append.mpr (Or.inl (funcs_req_G genFacts fg g hfg r hr))
+
+/-- …so every node inside a function (its graph and the bodies below it) is adapted against opsets that
+    answer like the MODEL's imports. -/
+theorem function_nodes_see_model_imports (g : PGraph) :
+    ∀ f ∈ (buildModel genFacts g).funcs, ∀ e ∈ f.2, ∀ d,
+      lookup d e.opsets = lookup d (buildModel genFacts g).imports := by
+  intro f hf e he d
+  rw [function_opsets_agree g f hf e he d, function_imports_agree g f hf d]
+
 /-- **Partial** (`concrete` inside `NodeOk` excludes the listed finding `adapt:unknown-rank`; what the
     converter emits is a parameter): every node of the main graph and of every body below it, at any
     depth, is emitted in a form that is well-formed at the imported version of its domain — kept when the
@@ -276,6 +314,138 @@ theorem convert_only_when_needed (g : PGraph) (e : Entry) (he : e ∈ (buildMode
   | intro => simp [adaptBestEffort] at hc
   | func d v => simp [adaptBestEffort] at hc
 
+/-! ## inlined models: conversion is decided by the default domain alone -/
+
+/-- `adapt_inline` looks at the default-domain target only: two opsets that answer the lookup of `""`
+    alike give the same decision for an inlined model, whatever they say about any other domain. -/
+theorem inline_decision_default_only (F : Facts) (o₁ o₂ imports : List Req) (hd : Bool) (np : Nat) (c : Bool)
+    (subs : List PGraph) (i : Nat) (h : lookup "" o₁ = lookup "" o₂) :
+    adaptBestEffort F o₁ (.mk (.inline imports hd) np c subs i) =
+      adaptBestEffort F o₂ (.mk (.inline imports hd) np c subs i) := by
+  simp only [adaptBestEffort, h]
+
+/-- Inside a built model — main graph or a body at any depth — an inlined model that has default-domain
+    nodes and was written against another default-domain version than the model imports is converted, to
+    exactly the imported version; otherwise it is kept. Nothing else enters: not the versions of
+    `ai.onnx.ml` or of a custom domain the inlined model imports, not what the model imports for them. -/
+theorem inline_converted_iff (g : PGraph) (e : Entry) (he : e ∈ (buildModel genFacts g).main)
+    (imports : List Req) (hd : Bool) (hk : e.node.kind = .inline imports hd) :
+    ∃ t, lookup "" (buildModel genFacts g).imports = some t ∧
+      e.decision = (if hd = true ∧ inlineSource imports t ≠ t
+                    then .convertInline (inlineSource imports t) t else .keepInline) := by
+  obtain ⟨hdec, hdom, hag⟩ := entry_invariant g e he
+  have hag' : ∀ d, lookup d e.opsets = lookup d (buildModel genFacts g).imports := hag
+  obtain ⟨ops, node, dec⟩ := e
+  obtain ⟨k, np, c, subs, i⟩ := node
+  simp only [PNode.kind] at hk
+  subst hk
+  simp only at hdec hdom hag' ⊢
+  obtain ⟨t, ht, _⟩ := hdom ("", genFacts.minOpset) (by simp [kindReq, PNode.kind])
+  have ht' : lookup "" ops = some t := by simpa [fold] using ht
+  refine ⟨t, by rw [← hag' ""]; exact ht', ?_⟩
+  subst hdec
+  cases hd with
+  | false => simp [adaptBestEffort, ht']
+  | true =>
+    by_cases hs : inlineSource imports t = t
+    · simp [adaptBestEffort, ht', hs]
+    · simp [adaptBestEffort, ht', hs]
+
+/-- Whatever an inlined model imports — `ai.onnx.ml`, a custom domain, the default domain under either
+    name — the built model imports that domain, at that version or above (the largest requested). -/
+theorem inline_imports_dominated (g : PGraph) (e : Entry) (he : e ∈ (buildModel genFacts g).main)
+    (imports : List Req) (hd : Bool) (hk : e.node.kind = .inline imports hd) :
+    ∀ r ∈ imports, ∃ t, lookup (fold r.1) (buildModel genFacts g).imports = some t ∧ r.2 ≤ t := by
+  intro r hr
+  obtain ⟨_, hdom, hag⟩ := entry_invariant g e he
+  have hag' : ∀ d, lookup d e.opsets = lookup d (buildModel genFacts g).imports := hag
+  obtain ⟨t, ht, hle⟩ := hdom r (by rw [hk]; simp [kindReq, hr])
+  exact ⟨t, by rw [← hag' (fold r.1)]; exact ht, hle⟩
+
+/-- …and a converted inlined model is valid in the sense of `entryValid`: its target is the import. -/
+theorem inline_target_is_import (g : PGraph) (e : Entry) (he : e ∈ (buildModel genFacts g).main)
+    (s t : Nat) (hc : e.decision = .convertInline s t) :
+    lookup "" (buildModel genFacts g).imports = some t ∧ s ≠ t := by
+  obtain ⟨hdec, hdom, hag⟩ := entry_invariant g e he
+  have hag' : ∀ d, lookup d e.opsets = lookup d (buildModel genFacts g).imports := hag
+  obtain ⟨ops, node, dec⟩ := e
+  obtain ⟨k, np, c, subs, i⟩ := node
+  simp only at hdec hdom hag' hc ⊢
+  subst hdec
+  cases k with
+  | inline imps hd =>
+    cases hl : lookup "" ops with
+    | none => simp [adaptBestEffort, hl] at hc
+    | some tg =>
+      cases hd with
+      | false => simp [adaptBestEffort, hl] at hc
+      | true =>
+        by_cases hs : inlineSource imps tg = tg
+        · simp [adaptBestEffort, hl, hs] at hc
+        · simp [adaptBestEffort, hl, hs] at hc
+          obtain ⟨rfl, rfl⟩ := hc
+          exact ⟨by rw [← hag' ""]; exact hl, hs⟩
+  | op d o v =>
+    exfalso
+    simp only [adaptBestEffort] at hc
+    repeat' (split at hc)
+    all_goals (first | cases hc | simp at hc)
+  | internal => simp [adaptBestEffort] at hc
+  | intro => simp [adaptBestEffort] at hc
+  | func d v => simp [adaptBestEffort] at hc
+
+/-! ## nothing is remembered between builds (tie G inventory) -/
+
+/-- Names do not enter. Renaming every node of a program — what happens between two builds of the same
+    operator objects when arguments, results or intermediate values are named differently — changes neither
+    the imports nor, entry by entry (main graph and bodies at any depth), the opsets a node is adapted
+    against and the decision taken: there is nothing keyed by names that an earlier build could leave behind. -/
+theorem build_ignores_names (f : Nat → Nat) (g : PGraph) :
+    (buildModel genFacts (renameG f g)).imports = (buildModel genFacts g).imports ∧
+      (buildModel genFacts (renameG f g)).main.map Entry.view =
+        (buildModel genFacts g).main.map Entry.view := by
+  refine ⟨?_, adaptGraph_rename genFacts f [] g⟩
+  simp only [buildModel, opsetsOf, reqGraph_rename]
+
+/-- The same with extra requirements (`Graph.with_opset`), as used by the low-level API in the histories. -/
+theorem build_with_ignores_names (f : Nat → Nat) (extra : List Req) (g : PGraph) :
+    (buildModelWith genFacts extra (renameG f g)).imports = (buildModelWith genFacts extra g).imports ∧
+      (buildModelWith genFacts extra (renameG f g)).main.map Entry.view =
+        (buildModelWith genFacts extra g).main.map Entry.view := by
+  refine ⟨?_, adaptGraph_rename genFacts f extra g⟩
+  simp only [buildModelWith, opsetsOf, reqGraph_rename]
+
+/-- Every application of a function is compiled in a scope of its own. Whatever its nodes are called there,
+    the function graph gets the same imports and, entry by entry, the same opsets and decisions: all
+    applications of one function yield one definition. -/
+theorem function_instances_agree (f : Nat → Nat) (imports : List Req) (fg : PGraph) :
+    opsetsOf genFacts imports (renameG f fg) = opsetsOf genFacts imports fg ∧
+      (adaptGraph genFacts imports (renameG f fg)).map Entry.view =
+        (adaptGraph genFacts imports fg).map Entry.view := by
+  refine ⟨?_, adaptGraph_rename genFacts f imports fg⟩
+  simp only [opsetsOf, reqGraph_rename]
+
+/-- The value names adaptation introduces are a function of the entries' node names and decisions alone —
+    no history, no process-wide counter: two applications of a function, compiled in equally named scopes
+    and adapted alike, define exactly the same names (so their FunctionProtos coincide). -/
+theorem adapted_names_deterministic (q : Bool) (nOut : Nat → Nat) (conv : Nat → List Nat) (es₁ es₂ : List Entry)
+    (h : es₁.map Entry.key = es₂.map Entry.key) :
+    allNames q nOut conv es₁ = allNames q nOut conv es₂ :=
+  allNames_key q nOut conv es₁ es₂ h
+
+/-- `_adapt.py` and `_graph.py` keep no state that outlives a build (and the other files a build passes through no
+    mutable default argument, caching decorator or `global`): no module-level binding, no `global`,
+    no caching decorator, no mutable default argument, no mutable class attribute (inventory regenerated
+    from the source on every run). A module-level cache of adapted protos makes this fail to build. -/
+theorem adaptation_keeps_no_state : Generated.OpsetFacts.adaptState = [] := by decide
+
+/-- The attribute write sites of those two files are exactly the known ones: `adapt_inline` swaps
+    `node.model` for the converted model and restores it (`finally`), a `Graph` fills its own build cache. -/
+theorem adaptation_write_sites :
+    Generated.OpsetFacts.adaptAttrWrites =
+      ["_adapt.py:adapt_inline:node.model", "_adapt.py:adapt_inline:node.model",
+       "_graph.py:_get_build_result:self._build_result.value"] := by decide
+
 /-! ## the statement without the exclusions is false of the code: witnesses -/
 
 open Generated.OpsetFacts in
@@ -364,5 +534,34 @@ example : (buildModel genFacts mixedExample).main.all (fun e => decide (NodeOkB 
 example : (buildModel genFacts mixedExample).main.all
     (fun e => entryValid (buildModel genFacts mixedExample).imports e) = true := by decide +kernel
 example : (buildModel genFacts (.mk [])).imports = [("", 14)] := by decide +kernel
+example : (buildModel genFacts (renameG (· + 100) mixedExample)).main.map (·.node.id) = [101, 102, 103, 104, 105, 106, 107] ∧
+    (buildModel genFacts (renameG (· + 100) mixedExample)).main.map (·.decision) =
+      (buildModel genFacts mixedExample).main.map (·.decision) := by decide +kernel
+
+/-- a function whose body uses `ml3.label_encoder`, next to `ml4.label_encoder` and a v18 reduction -/
+def funcExample : PGraph :=
+  .mk [.mk (.func "spox.verif" 0) 1 true
+         [.mk [.mk (.op "ai.onnx.ml" ((Generated.OpsetFacts.opNames.idxOf? ("ai.onnx.ml", "LabelEncoder")).getD 0) 2) 1 true [] 2]] 1,
+       .mk (.op "ai.onnx.ml" ((Generated.OpsetFacts.opNames.idxOf? ("ai.onnx.ml", "LabelEncoder")).getD 0) 4) 1 true [] 3,
+       .mk (.op "" (opNo "ReduceMax") 18) 1 true [] 4]
+
+example : (buildModel genFacts funcExample).imports = [("", 18), ("ai.onnx.ml", 4), ("spox.verif", 0)] ∧
+    (buildModel genFacts funcExample).funcs.map (·.1) = [[("", 18), ("ai.onnx.ml", 4), ("spox.verif", 0)]] ∧
+    (buildModel genFacts funcExample).funcs.map (fun f => f.2.map (·.decision)) = [[.keepNonDefault 2 4]] := by
+  decide +kernel
+
+/-- a legacy opset-11 model importing ai.onnx.ml 1 and a custom domain 2, next to an ml4 LabelEncoder, another
+    legacy model asking for the custom domain at 3, and a v21 Identity: both inlined models are converted to 21 -/
+def inlineMixExample : PGraph :=
+  .mk [.mk (.inline [("", 11), ("ai.onnx.ml", 1), ("verif.custom", 2)] true) 7 true [] 1,
+       .mk (.op "ai.onnx.ml" ((Generated.OpsetFacts.opNames.idxOf? ("ai.onnx.ml", "LabelEncoder")).getD 0) 4) 1 true [] 2,
+       .mk (.inline [("", 17), ("ai.onnx", 17), ("verif.custom", 3)] true) 4 true [] 3,
+       .mk (.inline [("ai.onnx.ml", 3)] false) 1 true [] 4,
+       .mk (.op "" (opNo "Identity") 21) 1 true [] 5]
+
+example : (buildModel genFacts inlineMixExample).imports = [("", 21), ("ai.onnx.ml", 4), ("verif.custom", 3)] := by
+  decide +kernel
+example : (buildModel genFacts inlineMixExample).main.map (·.decision) =
+    [.convertInline 11 21, .keepSameVersion, .convertInline 17 21, .keepInline, .keepSameVersion] := by decide +kernel
 
 end C09
